@@ -120,6 +120,18 @@ def expr_slots(nodes):
     return slots
 
 
+def find_invalid(e):
+    """The first ["invalid", ...] node inside an expression tree."""
+    if isinstance(e, list):
+        if e and e[0] == "invalid":
+            return e
+        for x in e:
+            r = find_invalid(x)
+            if r is not None:
+                return r
+    return None
+
+
 @st.composite
 def planted(draw):
     case = draw(tstrat.templates(depth=2, max_elems=8, onerror=2, rec=True,
@@ -149,8 +161,14 @@ def planted(draw):
             cont[key] = ["pipe", [old, ["invalid", text, j]]]
         else:
             cont[key] = ["invalid", text, j]
+            wrap = draw(st.sampled_from([None, None, None, "exists", "not",
+                                         "python"]))
+            if wrap and key != "omit-tag" and old[0] not in ("string",):
+                # operand of an expression type that takes an expression
+                cont[key] = ["prefix", wrap, ["invalid", text, j]]
         texts.append({"text": text, "alt": as_alt})
-    return {"nodes": nodes, "bindings": case["bindings"], "planted": texts}
+    return {"nodes": nodes, "bindings": case["bindings"], "planted": texts,
+            "eol": draw(st.sampled_from(["\n", "\n", "\r\n", "\r"]))}
 
 
 class Planted(Part):
@@ -181,11 +199,7 @@ class Planted(Part):
                        exprs.has(p[1], "invalid")]
                 if bad:
                     first = [p for p in parts if p[0] == "interp"][0]
-                    inv = bad[0][1]
-                    while inv[0] != "invalid":
-                        inv = [a for a in inv[1] if exprs.has(a, "invalid")
-                               or a[0] == "invalid"][0]
-                    first[1] = inv
+                    first[1] = find_invalid(bad[0][1])
 
             def walk(ns):
                 for n in ns:
@@ -233,11 +247,15 @@ class Planted(Part):
         if not case["planted"]:
             return None
         src = tmodel.serialize(case["nodes"]).text()
+        # the template is written with this line-ending style; positions
+        # are checked against the text with plain line feeds (a CR LF pair
+        # is one line break: line and column numbers are the same)
+        given = src.replace("\n", case.get("eol", "\n"))
         texts = [p["text"] for p in case["planted"]]
         detail = {"source": src, "bindings": case["bindings"],
                   "planted": case["planted"]}
         # --- strict
-        o = run(PageTemplate, src, strict=True)
+        o = run(PageTemplate, given, strict=True)
         if o.ok:
             return Mismatch("planted:strict accepted an invalid expression",
                             detail)
@@ -251,8 +269,12 @@ class Planted(Part):
             return Mismatch("planted:strict " + why, dict(
                 detail, token=tok, offset=off,
                 found=src[off:off + len(tok)]))
+        why = self.check_location(src, tok, off, o.exc)
+        if why:
+            return Mismatch("planted:strict " + why, dict(
+                detail, token=tok, offset=off, eol=case.get("eol")))
         # --- non-strict
-        o = run(PageTemplate, src, strict=False)
+        o = run(PageTemplate, given, strict=False)
         if not o.ok:
             return Mismatch("planted:non-strict construction raises " +
                             o.exc_name, dict(detail, outcome=o.brief()))
@@ -269,6 +291,10 @@ class Planted(Part):
             if why:
                 return Mismatch("planted:non-strict " + why, dict(
                     detail, token=t, offset=off))
+            why = self.check_location(src, t, off, r.exc)
+            if why:
+                return Mismatch("planted:non-strict " + why, dict(
+                    detail, token=t, offset=off, eol=case.get("eol")))
             got = ("invalid", self.planted_for(src, t, off, texts))
         else:
             got = ("exc", r.exc_name)
@@ -344,6 +370,19 @@ class Planted(Part):
                 return t
         return None
 
+    @staticmethod
+    def check_location(src, tok, off, exc):
+        """(line, column) reported with the error = where the token stands
+        (only asserted when the offset itself is exact)."""
+        if src[off:off + len(tok)] != tok:
+            return None
+        before = src[:off]
+        want = (before.count("\n") + 1, off - before.rfind("\n") - 1)
+        got = tuple(exc.location)
+        if got != want:
+            return "location differs from where the token stands"
+        return None
+
     @classmethod
     def check_token(cls, src, tok, off, texts):
         if cls.planted_for(src, tok, off, texts) is None:
@@ -352,13 +391,16 @@ class Planted(Part):
             return None
         # entities written before the token in the same attribute value
         # shift reported positions (checked, and recorded, under C11)
+        # (the same text may stand at several sites: any of them)
         true = src.find(tok.strip())
-        start = max(src.rfind('="', 0, true), src.rfind("='", 0, true))
-        if true >= 0 and start >= 0 and "&" in src[start:true]:
-            return None
-        start = src.rfind("${", 0, true)
-        if true >= 0 and start >= 0 and "&" in src[start:true]:
-            return None
+        while true >= 0:
+            start = max(src.rfind('="', 0, true), src.rfind("='", 0, true))
+            if start >= 0 and "&" in src[start:true]:
+                return None
+            start = src.rfind("${", 0, true)
+            if start >= 0 and "&" in src[start:true]:
+                return None
+            true = src.find(tok.strip(), true + 1)
         return "offset does not point at token"
 
     def known(self, case, mismatch):
